@@ -331,7 +331,7 @@ class Reporter:
             if shown >= 25:
                 break       # the smallest 25 witnesses get a replay file; the total is in the evidence
             path = os.path.join(REPLAYS, '%s-%s.json' % (self.pid, sha(sig)))
-            with open(path, 'w', encoding='utf-8') as f:
+            with open(path, 'w', encoding='utf-8', errors='backslashreplace') as f:
                 json.dump(rep, f, ensure_ascii=False, indent=1, default=str)
             if shown < 25:
                 lines.append('VIOLATION property=%s replay=%s' % (self.pid, path))
@@ -357,7 +357,7 @@ class Reporter:
         }
         os.makedirs(EVID, exist_ok=True)
         tmp = os.path.join(EVID, '.%s.json.tmp' % self.pid)
-        with open(tmp, 'w', encoding='utf-8') as f:
+        with open(tmp, 'w', encoding='utf-8', errors='backslashreplace') as f:
             json.dump(ev, f, ensure_ascii=False, indent=1, default=str)
         os.replace(tmp, os.path.join(EVID, '%s.json' % self.pid))
         for l in lines:
